@@ -320,3 +320,15 @@ func ResumeTLS12(rw io.ReadWriter, o TLSResumeOpts) (*TLSResumeResult, error) {
 		}
 	}
 }
+
+func newGCM(key []byte) cipher.AEAD {
+	blk, err := aes.NewCipher(key)
+	if err != nil {
+		panic(err)
+	}
+	a, err := cipher.NewGCM(blk)
+	if err != nil {
+		panic(err)
+	}
+	return a
+}
